@@ -41,6 +41,9 @@ def units(tier):
         yield {"leg": "pairs", "name": k}
     yield {"leg": "malformed"}
     yield {"leg": "parse_region"}
+    # 'any fetch() taking a region string': the same strings resolved on ONE Cooler object before and after its chromosomes are
+    # renamed among each other (a string denotes what it denotes under the chromosome table of the moment)
+    yield {"leg": "object-strings"}
     yield {"leg": "uri"}
 
 
@@ -260,6 +263,61 @@ def _parse_region(R, only):
                     R.mismatch("parse_region", inner, f"got={got} want={want}")
 
 
+def _object_strings(R, only):
+    import cooler
+    import numpy as np
+    import pandas as pd
+    from vmc.core import scratch
+    sizes = [("chr1", 20), ("chr2", 12), ("chr3", 6)]
+    bins = [(c, a, min(a + 2, L)) for c, L in sizes for a in range(0, L, 2)]
+    bdf = pd.DataFrame({"chrom": pd.Categorical([b[0] for b in bins], categories=[c for c, _ in sizes], ordered=True), "start": [b[1] for b in bins], "end": [b[2] for b in bins]})
+    n = len(bins)
+    pix = pd.DataFrame({"bin1_id": np.arange(n), "bin2_id": np.arange(n), "count": np.arange(1, n + 1)})
+    strings = ["chr1", "chr2", "chr3", "chr1:4-", "chr2:4-", "chr3:2-", "chr1:0-12", "chr1:0-20", "chr2:2-12", "chr1:1.6e1-", "chr1:0-0.02k", "chr2:0-6", "chr3:0-6", "chr1:14-18"]
+    strings = [x for x in strings if "e" not in x.split(":")[-1]]
+    R.add("states")
+    R.add("traces")
+    p = scratch.fresh()
+    try:
+        cooler.create_cooler(p, bdf, pix, ordered=True)
+        clr = cooler.Cooler(p)
+        cur = dict(sizes)
+        order = [c for c, _ in sizes]
+        maps = [None, {"chr1": "chr2", "chr2": "chr1"}, {"chr1": "chr3", "chr3": "chr1"}, {"chr1": "chr2", "chr2": "chr3", "chr3": "chr1"}]
+        for step, mp in enumerate(maps):
+            if mp:
+                cooler.rename_chroms(clr, dict(mp))
+                order = [mp.get(c, c) for c in order]
+                cur = {mp.get(c, c): L for c, L in cur.items()}
+            offs, o = {}, 0
+            for c in order:
+                offs[c] = o
+                o += (cur[c] + 1) // 2
+            for st in strings:
+                inner = {"step": step, "map": mp, "string": st}
+                if only is not None and only != inner:
+                    continue
+                R.ev(1, 1 if step else 0)
+                R.add("transitions", 3)
+                R.cls("object-strings")
+                c, s0, e0 = models.ref_region_string(st)
+                s2 = 0 if s0 is None else s0
+                e2 = cur[c] if e0 is None else e0
+                want = "refuse" if (e2 > cur[c] or e2 < s2) else (offs[c] + s2 // 2, offs[c] + -(-e2 // 2))
+                try:
+                    got = tuple(int(x) for x in clr.extent(st))
+                    f = clr.bins().fetch(st)
+                    m = clr.matrix(balance=False).fetch(st)
+                    if want != "refuse" and (list(f.index) != list(range(*want)) or m.shape != (want[1] - want[0],) * 2):
+                        got = ("fetch", list(f.index)[:3], m.shape)
+                except Exception:
+                    got = "refuse"
+                if got != want:
+                    R.mismatch("region-string-on-object!=what-it-denotes-now", inner, f"got={got} want={want} chromosome table now={[(c, cur[c]) for c in order]}")
+    finally:
+        scratch.rm(p)
+
+
 def _uri(R, only):
     from cooler import util
     files = ["f", "a.cool", "/abs/path/x.mcool", "rel/dir/f.cool", "with space.cool", "./x", "x.cool:1", "ü.cool"]
@@ -301,6 +359,8 @@ def run(unit, R, tier, only=None):
         R.sample({"leg": leg, "strings": [s for _, s in malformed_strings()[:12]]})
     elif leg == "parse_region":
         _parse_region(R, only)
+    elif leg == "object-strings":
+        _object_strings(R, only)
     elif leg == "uri":
         _uri(R, only)
     else:
